@@ -358,6 +358,11 @@ func hcC10PadToStream(c *Ctx) {
 // hcC10ClientDeliveredRefund: the amount given back after takeInflows is, on
 // every incoming edge of its merge, the whole frame / the data length where
 // bufPipe.Write failed, and the padding (or nothing) where it did not.
+//
+// The amounts are compared as clamp-normalised linear forms (H10Forms): the
+// padding refund max(length−len(data), 0) is one quantity whether it is written
+// as `if pad > 0 { refund += pad }` or as max(pad, 0); a merge of pad and 0 whose
+// branch facts are the inverse of the clamp (pad where pad < 0) is no padding refund.
 func hcC10ClientDeliveredRefund(c *Ctx, takes, refunds Sel) {
 	rule := "refund-amount"
 	construct := hcC10CliData + ": refund after takeInflows = padding, plus len(data) exactly where bufPipe.Write failed"
@@ -373,8 +378,34 @@ func hcC10ClientDeliveredRefund(c *Ctx, takes, refunds Sel) {
 	}
 	n := Term(HcCallArg(ts[0], 2))
 	data := Term(BaselineArgs(&w.Call)[1])
-	lin := func(s string) string { l, _ := c.P.HcLinSpec(s); return l }
-	whole, pad, dlen, zero := lin(n), lin(n+"-len("+data+")"), lin("len("+data+")"), lin("0")
+	wholeL, err1 := H10ParseLin(c.P, n)
+	dlenL, err2 := H10ParseLin(c.P, "len("+data+")")
+	if err1 != nil || err2 != nil {
+		c.Undecided(rule, construct, "cannot express the frame length / data length as linear forms")
+		return
+	}
+	padL := wholeL.Sub(dlenL)
+	clampL := H10Max0(padL) // max(length − len(data), 0)
+	clamps := map[string]Lin{}
+	for t := range clampL.Coef {
+		clamps[t] = padL
+	}
+	// the plain values behind a form: a recognised clamp of the padding stands for "the padding, or 0"
+	plain := func(fs []Lin) []string {
+		set := map[string]bool{}
+		for _, f := range fs {
+			for _, e := range H10Expand(f, clamps) {
+				set[e.String()] = true
+			}
+		}
+		var out []string
+		for s := range set {
+			out = append(out, s)
+		}
+		sort.Strings(out)
+		return out
+	}
+	whole, pad, dlen, zero := wholeL.String(), padL.String(), dlenL.String(), "0"
 	errFact := HcTermAtom(Term(w)+"#1", false)
 	first := HcFirstReached(ts[0], refunds.F(c.P, fn))
 	if len(first) == 0 {
@@ -383,12 +414,13 @@ func hcC10ClientDeliveredRefund(c *Ctx, takes, refunds Sel) {
 	}
 	for _, r := range first {
 		amount := HcUnwrap(HcCallArg(r, 1))
+		forms := H10Forms(amount)
 		all := map[string]bool{}
-		for _, s := range HcLinSet(amount) {
+		for _, s := range plain(forms) {
 			all[s] = true
 		}
 		if !all[whole] || !all[pad] {
-			c.Fail(rule, construct, InstrPos(r), fmt.Sprintf("possible refunds %v lack the whole frame or the padding", HcLinSet(amount)))
+			c.Fail(rule, construct, InstrPos(r), fmt.Sprintf("possible refunds %v lack the whole frame or the padding", H10FormStrings(forms)))
 			return
 		}
 		ph, ok := amount.(*ssa.Phi)
@@ -403,7 +435,7 @@ func hcC10ClientDeliveredRefund(c *Ctx, takes, refunds Sel) {
 					failed = true
 				}
 			}
-			for _, s := range HcLinSet(e) {
+			for _, s := range plain(H10Forms(e)) {
 				okv := s == pad || s == zero
 				if failed {
 					okv = s == whole || s == dlen
